@@ -12,7 +12,7 @@ MODULES = {
     "C03": ["NSG.Properties.C03", "NSG.Properties.C03Loader"],
     "C08": ["NSG.Properties.C08"],
     "C11": ["NSG.Properties.C11"],
-    "C12": ["NSG.Properties.C12"],
+    "C12": ["NSG.Properties.C12", "NSG.Properties.C12Coord"],
 }
 RULES = {
     "C02": "random walks of 1-3 agents on shipped and generated worlds; evaluations = world steps with pre=false compared with the model; non-trivial = exactly one guard of the precondition false (distinct by action type, guard, view, action)",
